@@ -44,12 +44,12 @@ ASSUMPTIONS = ["reference impedance tolerance 1e-8 relative (measured agreement 
                "wards/xwards, power-station units, DFIG sgens, branch results and the superposition method are not generated",
                "documented rejections (ValueError/UserWarning/NotImplementedError about missing data) are skipped"]
 
-# element kinds whose reference model has been validated against the unchanged tree (DESIGN.md C18: one at a time)
-# validated so far (worst relative deviation of rk+jxk on the unchanged tree, 300-400 cases each): ext_grid+line+trafo 9e-14,
-# + gen (K_G) 2.4e-13, + motor 1.3e-13, + sgen (current source share of ikss) no deviation > 1e-8
+# Element kinds were enabled one at a time (DESIGN.md "### C18"), each after pbt/c18_refsc.py had reproduced rk+jxk of the
+# unchanged tree on 300-500 generated cases x {max, min}; worst relative deviation per stage: ext_grid + line + trafo 9e-14,
+# + gen (K_G) 2.4e-13, + motor 1.3e-13, + full-converter sgen (current-source share of ikss) < 1e-8, + trafo3w 8e-14,
+# + impedance / impedance switch 4e-14, + asynchronous sgen 5e-13 (outside the shapes of the reported findings).
 BUS_KINDS = {"load": 2, "sgen": 2, "gen": 2, "storage": 0, "shunt": 1, "ward": 0, "xward": 0, "motor": 2,
              "asymmetric_load": 0, "asymmetric_sgen": 0}
-# + trafo3w 8e-14, + impedance / impedance switch 4e-14
 PROFILE = netgen.profile(nb_level=(1, 4), nb_max=10, bus_kinds=BUS_KINDS, max_per_bus=2,
                          branch_kinds={"line": 8, "impedance": 1, "bb": 2}, trafo3w=True, switch_z=True, dcline=False,
                          zip=False, scaling=False, gen_qlims=False, oos=0.05, open_prob=0.25)
